@@ -2,6 +2,7 @@
    Model: Deser/Model.v (exec, compile); specification: Deser/Spec.v (spec); proofs: Deser/Proofs.v. *)
 From Coq Require Import List String ZArith Bool.
 From AV Require Import Core.Json Core.Errors Deser.Model Deser.Spec Deser.Loops Deser.Proofs Deser.Examples.
+From AV Require Import Gen.Tables Small.ConMerge Small.ConMergeProofs.
 Import ListNotations.
 
 (* For every universe of classes / enums, every option record without coercion (coercion is C14), every type of the
@@ -32,3 +33,21 @@ Theorem C01_hypotheses_satisfiable :
   /\ wf_data ex_good = true /\ wf_data ex_bad = true.
 Proof. exact ex_wf. Qed.
 Print Assumptions C01_hypotheses_satisfiable.
+
+(* Constraints given at several levels of one type (NewType / class schema, nested Annotated, field metadata, per-call schema=)
+   are merged by apischema/constraints.py before the method is compiled.  On the table of merge operations regenerated from
+   that file on every run: every constraint of the data model is in the table and its merge operation computes the
+   conjunction of the two levels (pattern refuses to merge) ... *)
+Theorem C01_constraint_merge_table_conjoins :
+  map (fun r : string * string * string => fst (fst r)) constraint_merges = expected_names /\ Forall row_ok constraint_merges.
+Proof. exact source_merges_conjoin. Qed.
+Print Assumptions C01_constraint_merge_table_conjoins.
+
+(* ... hence, for any number of levels, the merged constraint accepts exactly the data every level accepts *)
+Theorem C01_merged_levels_accept_the_conjunction :
+  forall name al m k f,
+  In (name, al, m) constraint_merges -> kind_of name = Some k -> k <> Pat -> merge_op m = Some f ->
+  forall (levels : list Z) (b0 x : Z), param_ok k b0 -> Forall (param_ok k) levels ->
+  sat k (fold_left f levels b0) x = forallb (fun b => sat k b x) (b0 :: levels).
+Proof. exact merged_levels_are_the_conjunction. Qed.
+Print Assumptions C01_merged_levels_accept_the_conjunction.
